@@ -1,9 +1,17 @@
 import Driver.Loop
 import Midgard.Model.Sp3
 import Midgard.Generated.Sp3Cols
+import Midgard.Spec.Sp3File
 
 /-! Driver for C13 (SP3):  `c13 file <hexfile>` → JSON of header meta and entries (exact rationals,
-`null` = NaN); `RAISES` when the model says the real code raises. -/
+`null` = NaN); `RAISES` when the model says the real code raises.
+
+`c13 model <tokens of an abstract file>` → `{"wf":…,"thm":…,"text":<hex of render F>,"parse":…}`: the abstract
+file of `Spec/Sp3File.lean` is rendered by the spec writer, parsed by the model (`parseFile`), and compared
+with `expectedMeta` / `expectedEntries` (`thm` = the instance of `file_roundtrip` evaluates to true).
+Wire format (blank separated; texts hex, `-` = absent):
+  ver  12×line1  5×line2  n n×(kind text)  filetype timesys basepos baseclk  n n×(kind text)
+  nepochs { y mo d h mi sec7 nrecs { sat x y z clk  (0 | 1 sx sy sz sclk f1 f2 f3 f4)  pad80  n n×(kind text) } } -/
 namespace Driver.C13
 open Midgard.Proto Midgard.Text Midgard.Sp3 Midgard.Generated.Sp3
 
@@ -23,12 +31,88 @@ def showEntry (e : Entry) : String :=
   ",\"psig\":[" ++ ",".intercalate (e.posSigma.map orat) ++ "],\"csig\":" ++ orat e.clkSigma ++
   ",\"dsec\":" ++ q (showRat (datasetSeconds e.epoch)) ++ "}"
 
+
+namespace Wire
+open Midgard.Spec.Sp3File
+
+abbrev P := StateT (List String) Option
+
+def tok : P String := fun ts => match ts with | t :: r => some (t, r) | [] => Option.none
+def hex : P Str := do let t ← tok; (decodeHex? t).map ofString
+def nat : P Nat := do let t ← tok; t.toNat?
+def int : P Int := do let t ← tok; t.toInt?
+def onat : P (Option Nat) := do let t ← tok; if t = "-" then pure Option.none else (t.toNat?).map some
+def bool : P Bool := do let t ← tok; parseBool? t
+def many {α} (p : P α) : Nat → P (List α)
+  | 0 => pure []
+  | n + 1 => do let a ← p; let r ← many p n; pure (a :: r)
+def counted {α} (p : P α) : P (List α) := do let n ← nat; many p n
+
+def hdrKind : P HdrKind := do
+  match (← tok) with
+  | "p" => pure .plus | "pp" => pure .plusplus | "i" => pure .pci | "c" => pure .comment
+  | _ => failure
+def extraKind : P ExtraKind := do
+  match (← tok) with
+  | "V" => pure .vel | "EP" => pure .ep | "EV" => pure .ev
+  | _ => failure
+
+def header : P Header := do
+  let v ← hex
+  let ver ← match v with | [c] => pure c | _ => failure
+  let l1 ← many hex 12
+  let l2 ← many hex 5
+  let sat ← counted (do let k ← hdrKind; let t ← hex; pure (k, t))
+  let ft ← hex; let ts ← hex; let bp ← nat; let bc ← nat
+  let tl ← counted (do let k ← hdrKind; let t ← hex; pure (k, t))
+  pure ⟨ver, l1, l2, sat, ft, ts, bp, bc, tl⟩
+
+def acc : P (Option Acc) := do
+  if (← bool) then
+    let sx ← onat; let sy ← onat; let sz ← onat; let sc ← onat
+    let fl ← many hex 4
+    pure (some ⟨sx, sy, sz, sc, fl⟩)
+  else pure Option.none
+
+def posRec : P PosRec := do
+  let sat ← hex; let x ← int; let y ← int; let z ← int; let clk ← int
+  let a ← acc; let pad ← bool
+  let ex ← counted (do let k ← extraKind; let t ← hex; pure (k, t))
+  pure ⟨sat, x, y, z, clk, a, pad, ex⟩
+
+def block : P EpochBlock := do
+  let y ← int; let mo ← int; let d ← int; let h ← int; let mi ← int; let s7 ← int
+  let recs ← counted posRec
+  pure ⟨⟨y, mo, d, h, mi, s7⟩, recs⟩
+
+def file : P File := do
+  let h ← header
+  let eps ← counted block
+  pure ⟨h, eps⟩
+
+end Wire
+
+def showParsed (p : Parsed) : String :=
+  "{\"meta\":" ++ showMeta p.hdr ++ ",\"entries\":[" ++ ",".intercalate (p.entries.map showEntry) ++ "]}"
+
 def handle : List String → Option String
   | ["c13", "file", h] => do
     let t ← (decodeHex? h).map ofString
     match parseFile factors headerDefs epochFields recP t with
     | Option.none => pure "RAISES"
-    | some p => pure ("{\"meta\":" ++ showMeta p.hdr ++ ",\"entries\":[" ++ ",".intercalate (p.entries.map showEntry) ++ "]}")
+    | some p => pure (showParsed p)
+  | "c13" :: "model" :: toks => do
+    let (f, rest) ← Wire.file toks
+    if !rest.isEmpty then failure
+    let text := Midgard.Spec.Sp3File.render f
+    let parsed := parseFile factors headerDefs epochFields recP text
+    let thm := match parsed with
+      | some p => decide (p.hdr = Midgard.Spec.Sp3File.expectedMeta f.hdr) &&
+                  decide (p.entries = Midgard.Spec.Sp3File.expectedEntries factors f)
+      | Option.none => false
+    pure ("{\"wf\":" ++ (if f.wf then "true" else "false") ++ ",\"thm\":" ++ (if thm then "true" else "false") ++
+      ",\"text\":" ++ q (encodeHex (asString text)) ++
+      ",\"parse\":" ++ (match parsed with | some p => showParsed p | Option.none => "\"RAISES\"") ++ "}")
   | _ => Option.none
 
 end Driver.C13
